@@ -86,6 +86,8 @@ SRC1_QUICK = [
     None,
     {"format": "csv", "path": "xy.csv"},
     {"format": "csv", "path": "xy.csv", "select": ["y"]},
+    {"format": "csv", "path": "xy.csv", "select": []},                                            # the empty subset of columns: the source contributes nothing
+    {"format": "json", "path": "xy.json", "select": [], "mode": "combinatorial"},
     {"format": "csv", "path": "xy.csv", "select": ["x", "nope"]},
     {"format": "csv", "path": "xy.csv", "rename": {"x": "a"}},
     {"format": "csv", "path": "xy.csv", "rename": {"x": "y"}},
